@@ -459,6 +459,49 @@ func (w *World) Reset(name string) {
 	w.Emit(Event{Actor: "sim", Ev: "Reset", Key: "-", Args: map[string]any{"scenario": name}})
 }
 
+// EnvSyncCache ends the create-not-yet-visible window.
+func (w *World) EnvSyncCache() {
+	if n := w.Store.SyncCreates(); n > 0 {
+		w.Emit(Event{Actor: "env", Ev: "EnvSyncCache", Key: "-", Args: map[string]any{"n": n}})
+	}
+}
+
+// Template variants for deployment scenarios.
+func TemplateVariant(v int) []PhaseSpec {
+	switch v % 4 {
+	case 0:
+		return []PhaseSpec{
+			{Name: "p1", Objects: []*unstructured.Unstructured{ConfigMap("shared", "x"), Widget("w1", 1)}},
+			{Name: "p2", Objects: []*unstructured.Unstructured{ConfigMap("dropped", "x")}},
+		}
+	case 1:
+		return []PhaseSpec{
+			{Name: "p1", Objects: []*unstructured.Unstructured{ConfigMap("shared", "y"), Widget("w1", 2)}},
+			{Name: "p2", Objects: []*unstructured.Unstructured{ConfigMap("added", "x")}},
+		}
+	case 2:
+		return []PhaseSpec{
+			{Name: "p1", Objects: []*unstructured.Unstructured{ConfigMap("shared", "z")}},
+			{Name: "p2", Objects: []*unstructured.Unstructured{Widget("w3", 1)}},
+		}
+	}
+	return []PhaseSpec{
+		{Name: "p1", Objects: []*unstructured.Unstructured{ConfigMap("other", "x")}},
+	}
+}
+
+// EnvSetTemplate edits the template of an ObjectDeployment (user action).
+func (w *World) EnvSetTemplate(k Key, variant int) bool {
+	ts := TemplateSpec(TemplateVariant(variant))
+	tm, err := runtime.DefaultUnstructuredConverter.ToUnstructured(&ts)
+	must(err)
+	return w.EnvMutate("EnvSetTemplate", k, map[string]any{"variant": variant}, func(m map[string]any) {
+		spec := nestedMap(m, "spec")
+		tmpl, _ := spec["template"].(map[string]any)
+		tmpl["spec"] = normalize(tm)
+	})
+}
+
 // Quiesced emits the final event carrying the projected end state of every object.
 func (w *World) StateDigest() []any {
 	out := []any{}
